@@ -147,6 +147,22 @@ func (v *Verifier) getChains(ctx context.Context, q ChainQuery) ([][]*x509.Certi
 	key := fmt.Sprintf("chain-%s-%x", q.IA, q.SubjectKeyID)
 
 	cachedChains, ok := v.cacheGet(key, "chains")
+	if ok && !q.Validity.IsZero() {
+		// The cache key does not include the validity of the query the chains were fetched for:
+		// only hand out cached chains that cover the validity asked for now. If none does, ask the
+		// engine (other chains for the same key may).
+		var covering [][]*x509.Certificate
+		for _, c := range cachedChains.([][]*x509.Certificate) {
+			certValidity := cppki.Validity{NotBefore: c[0].NotBefore, NotAfter: c[0].NotAfter}
+			if certValidity.Covers(q.Validity) {
+				covering = append(covering, c)
+			}
+		}
+		if len(covering) > 0 {
+			return covering, nil
+		}
+		ok = false
+	}
 	if ok {
 		return cachedChains.([][]*x509.Certificate), nil
 	}
